@@ -387,7 +387,7 @@ func c19r1(c *Ctx) {
 				}
 			}
 		}
-		// guarded fields: written under the write lock in some non-constructor method
+		// guarded fields: written while the lock is held in some non-constructor method
 		guarded := map[string]bool{}
 		for _, m := range ms {
 			la := las[m]
@@ -405,7 +405,9 @@ func c19r1(c *Ctx) {
 				if la.mutex == "" {
 					continue
 				}
-				if a.write && a.field != mutField && la.state[a.in] == lkW {
+				if a.write && a.field != mutField && (la.state[a.in] == lkW || la.state[a.in] == lkR) && !ctors[m] {
+					// written while the mutex is held in either mode: the field is meant to be guarded (a write under the read
+					// lock is then reported below as a write without the write lock)
 					guarded[a.field] = true
 				}
 			}
